@@ -157,8 +157,10 @@ impl<'a> IndexSelector<'a> {
         let index_name = self.arena.alloc_str(matching_index.name());
         let table_def_alloc = self.arena.alloc(table_def.clone());
 
-        let covered_columns = vec![col_name.to_string()];
-        let residual = compute_residual_filter(self.arena, filter.predicate, &covered_columns);
+        // Only the one equality that supplies the lookup key is answered by the index.
+        // Other conjuncts may constrain the same column (`id = 3 AND id < 2`), so the whole
+        // predicate is re-checked on the rows the index returns.
+        let residual: Option<&'a Expr<'a>> = Some(filter.predicate);
 
         let index_scan = self.arena.alloc(PhysicalOperator::SecondaryIndexScan(
             PhysicalSecondaryIndexScan {
